@@ -23,7 +23,7 @@ def gen_spec(rng):
     """1-2 channels, 1-4 bins, 2-3 samples; every modifier type without transcendental pieces:
     normfactor, shapefactor, shapesys, staterror, lumi, histosys (code0 / code2 / code4p chosen per model)."""
     nch = rng.choice([1, 1, 2])
-    code = rng.choice(['code0', 'code2', 'code4p', 'code4p'])
+    code = rng.choice(['code0', 'code0', 'code2', 'code4p', 'code4p'])
     use_lumi = rng.random() < 0.35
     chans = []
     for ci in range(nch):
@@ -231,10 +231,14 @@ def make_case(rng, k):
         pdf = build_pdf(spec, code)
         cm = compile_model(spec, code, pdf)
         x = gen_point(rng, cm, k)
+        mask = [rng.random() < 0.25 for _ in range(cm['npars'])]
+        if cm['alphas'] and rng.random() < 0.7:          # sit exactly on a breakpoint with a free alpha: 0 for code0, +-1 otherwise
+            a0 = rng.choice(cm['alphas'])
+            x[a0] = 0.0 if code == 'code0' else rng.choice([1.0, -1.0])
+            mask[a0] = False
         if min(rate_float(cm, x)) <= 1e-3:
             continue
         data = gen_data(rng, cm, x)
-        mask = [rng.random() < 0.25 for _ in range(cm['npars'])]
         if all(mask):
             mask[rng.randrange(len(mask))] = False
         if rng.random() < 0.3:
@@ -376,6 +380,11 @@ def run(ctx):
             a = c['x'][i]
             reg = 'kink0' if a == 0 else 'at+1' if a == 1 else 'at-1' if a == -1 else 'inner' if -1 < a < 1 else 'above' if a > 1 else 'below'
             stats['alpha_regimes'][reg] = stats['alpha_regimes'].get(reg, 0) + 1
+        if not all(math.isfinite(v) for v in [rec['value'], rec['value_nograd']] + rec['grad']):
+            ctx.violation('nonfinite:%s:stitch%d' % (rec['backend'], rec['do_stitch']), 'value-and-gradient function returned a non-finite number at a point with '
+                          'strictly positive rates (value %r, plain path %r)' % (rec['value'], rec['value_nograd']), replay_body(c, rec))
+            found = True
+            continue
         # value of the grad path = value of the non-grad path
         if not core.close(core.frac(rec['value_nograd']), rec['value'], rtol=VALUE_RTOL, atol=1e-9):
             ctx.violation('grad-path-value:%s' % rec['backend'], 'objective from the gradient path %r differs from the plain path %r' % (rec['value'], rec['value_nograd']),
